@@ -177,11 +177,15 @@ class PostgreSQLQueryBuilder(QueryBuilder):
 
             querystring += self._set_sql(ctx)
 
+            from_ = self._from
             if self._joins:
-                self._from.append(self._update_table.as_(self._update_table.get_table_name() + "_"))
+                from_ = [
+                    *self._from,
+                    self._update_table.as_(self._update_table.get_table_name() + "_"),
+                ]
 
-            if self._from:
-                querystring += self._from_sql(ctx)
+            if from_:
+                querystring += self._from_sql(ctx, from_)
             if self._joins:
                 querystring += " " + " ".join(join.get_sql(ctx) for join in self._joins)
 
